@@ -400,4 +400,11 @@ def rule_genpub(ctx):
     rule_failure_stops_delivery_first(ctx, 'C07.e')
 
 
-RULES = [('C07.a', rule_a), ('C07.b', rule_b), ('C07.c', rule_c), ('C07.d', rule_d), ('C11.h+C11.b+C09.e+C11.a+C01.h', rule_e), ('C07.e', rule_genpub)]
+
+def rule_error_conversion(ctx):
+    """The error a requester's subscriber / future is terminated with is the error the peer sent: code and text survive error_frame_to_exception (shared C12.l)."""
+    from .c12 import rule_error_conversion as conv
+    conv(ctx, 'C12.l')
+
+
+RULES = [('C07.a', rule_a), ('C07.b', rule_b), ('C07.c', rule_c), ('C07.d', rule_d), ('C11.h+C11.b+C09.e+C11.a+C01.h', rule_e), ('C07.e', rule_genpub), ('C12.l', rule_error_conversion)]
